@@ -34,6 +34,11 @@ CLAIMS = {
          "Decides for every handler/listener program the order apply -> publish -> listeners, at most one publish per call, that a failing apply, an apply reporting no change, an empty change "
          "and every invalid call (wrong type, negative index, reserved or malformed name) reach no publish and no listener, that Event fields flow from the apply results / arguments, and that "
          "nothing between an event/reply call and Conn.Publish is asynchronous. What apply handlers and listeners do is opaque.", "DESIGN.md section 4 C08"),
+ "C05": ("table bijection (payload struct -> request field -> accessor), sibling agreement (dispatcher vs subscribe, call vs auth lookup), error-mapping value flow, literal vocabulary",
+         "Decides the structure that carries the for-all-inputs statement: each decoded payload member reaches exactly one accessor unconverted; routed data comes from the Match; the dispatcher's "
+         "request types equal the subscribed ones; call/auth use [method] then [*] then methodNotFound and new prefers New; method stripping and method wildcards cover the same types; recovered "
+         "*Error is passed verbatim and everything else becomes an internal error; not-found / method-not-found / missing-reply outcomes use literals with the right code. Subject split arithmetic "
+         "and JSON decoding are not decided.", "DESIGN.md section 4 C05"),
  "C07": ("funnel census + subject-template matching over concatenation trees + validator rune-class facts + struct-tag / literal vocabulary checks",
          "Decides for every handler program that each published subject is an instance of one of the five documented templates with validated variable parts, that the token validator rejects "
          "everything NATS forbids, that every reply envelope and every static payload literal has exactly one of result/resource/error with string code/message, that meta is only reachable "
